@@ -486,3 +486,520 @@ class C07Monitor(Monitor):
 
     def summary(self):
         return {"jobs": self.njobs}
+
+
+# ======================================================================================
+def _file_hash(path):
+    h = hashlib.sha256()
+    try:
+        with open(path, "rb") as fh:
+            h.update(fh.read())
+    except OSError:
+        return None
+    return h.hexdigest()[:16]
+
+
+def _path_snapshot(path):
+    return {
+        "orders": [tuple(float(x) for x in pp.order) for pp in path.phasepoints],
+        "configs": [tuple(pp.config) for pp in path.phasepoints],
+        "vel_rev": [bool(pp.vel_rev) for pp in path.phasepoints],
+        "number": path.path_number,
+        "files": {f: _file_hash(f) for f in sorted(path.adress)},
+        "generated": path.generated,
+    }
+
+
+class C09Monitor(Monitor):
+    """Per-job monitor: membership of accepted paths, immutability on rejection and a
+    bit-exact reference model of the shooting move on the lattice engine."""
+
+    def __init__(self, model=True):
+        self.model = model
+        self.pre = {}
+        self.n_model = 0
+        self.n_acc = 0
+
+    def on_attach(self, state, md_items):
+        self.maxlength = state.config["simulation"]["tis_set"]["maxlength"]
+        self.wall = None
+        try:
+            self.wall = int(state.config["engine"].get("wall", -3))
+        except Exception:
+            pass
+
+    # ------------------------------------------------------------------ before the job
+    def pre_job(self, jid, job):
+        pre = {}
+        for e, pe in job["picked"].items():
+            old = pe["traj"]
+            pre[e] = {
+                "old_obj": old,
+                "snap": _path_snapshot(old),
+                "rg": copy.deepcopy(pe["ens"]["rgen"]),
+                "eg": copy.deepcopy(pe["rgen-eng"]),
+                "interfaces": tuple(pe["ens"]["interfaces"]),
+                "move": pe["ens"]["mc_move"],
+                "start_cond": pe["ens"]["start_cond"],
+                "tis": dict(pe["ens"]["tis_set"]),
+                "old_move": old.get_move(),
+            }
+        self.pre = pre
+
+    # ------------------------------------------------------------------ after the job
+    def post_job(self, jid, job, out):
+        sim = self.sim
+        status = out.get("status")
+        picked = out["picked"]
+        two = len(picked) == 2
+        for e, pe in picked.items():
+            pre = self.pre[e]
+            new = pe["traj"]
+            replaced = new is not pre["old_obj"]
+            if (status == "ACC") != replaced:
+                sim.violate("C09", "replace_status_mismatch",
+                            f"job {jid} ens {e}: status {status} but path replaced={replaced}")
+            if not replaced:
+                snap = _path_snapshot(new)
+                for key in ("orders", "configs", "vel_rev", "number"):
+                    if snap[key] != pre["snap"][key]:
+                        sim.violate("C09", "old_path_changed_on_reject",
+                                    f"job {jid} ens {e} status {status}: old path {key} changed")
+                if snap["files"] != pre["snap"]["files"]:
+                    sim.violate("C09", "old_files_changed_on_reject",
+                                f"job {jid} ens {e} status {status}: files of the old path changed")
+                continue
+            # ---- accepted: membership
+            self.n_acc += 1
+            self._membership(jid, e, pre, new, two)
+        if not two:
+            e = next(iter(picked))
+            pre = self.pre[e]
+            gen = out["generated"][0] if out.get("generated") else None
+            if pre["move"] == "sh" and gen and gen[0] == "sh":
+                idx = int(gen[2])
+                lold = len(pre["snap"]["orders"])
+                if not 1 <= idx <= lold - 2:
+                    sim.violate("C09", "shooting_point_is_end_point",
+                                f"job {jid} ens {e}: shooting index {idx} for old length {lold}")
+            if self.model and pre["move"] == "sh" and sim.scn.get("engine") == "lattice":
+                self._shoot_model(jid, e, pre, out)
+
+    def _membership(self, jid, e, pre, new, two):
+        sim = self.sim
+        left, mid, right = pre["interfaces"]
+        ops = [float(pp.order[0]) for pp in new.phasepoints]
+        sc = set(pre["start_cond"])
+        tag = f"job {jid} ens {e} ({'zero swap' if two else pre['move']})"
+
+        def side(x):
+            return "L" if x <= left else ("R" if x >= right else None)
+
+        if len(ops) < 3:
+            sim.violate("C09", "accepted_too_short", f"{tag}: accepted path of length {len(ops)}")
+            return
+        s0, s1 = side(ops[0]), side(ops[-1])
+        if s0 not in sc:
+            sim.violate("C09", "bad_start", f"{tag}: starts at {ops[0]} ({s0}), allowed {sorted(sc)}; "
+                        f"interfaces {pre['interfaces']}")
+        if e == -1:
+            ok_end = s1 in sc if sc == {"L", "R"} else s1 == "R"
+        else:
+            ok_end = s1 in ("L", "R")
+        if not ok_end:
+            sim.violate("C09", "bad_end", f"{tag}: ends at {ops[-1]} ({s1}); interfaces {pre['interfaces']}")
+        for k, x in enumerate(ops[1:-1], 1):
+            if not left < x < right:
+                sim.violate("C09", "interior_outside", f"{tag}: frame {k} at {x} outside ({left},{right})")
+        if sc != {"L", "R"} and not (min(ops) < mid <= max(ops)):
+            sim.violate("C09", "middle_not_crossed", f"{tag}: path [{min(ops)},{max(ops)}] does not "
+                        f"cross {mid}")
+        if len(ops) > self.maxlength:
+            sim.violate("C09", "too_long", f"{tag}: length {len(ops)} > maxlength {self.maxlength}")
+        if len(ops) == self.maxlength:
+            sim.k.probe("accepted_len_eq_maxlength")
+        widx = 0 if e == -1 else e
+        w = new.weights
+        if w is None or len(w) <= widx or w[widx] == 0:
+            sim.violate("C09", "zero_own_weight", f"{tag}: weights {w}")
+        if sim.scn.get("engine") == "lattice":
+            for a, b in zip(ops, ops[1:]):
+                if abs(a - b) > 1.0 + 1e-9:
+                    sim.violate("C09", "not_time_ordered", f"{tag}: consecutive frames {a} -> {b}")
+            for k, pp in enumerate(new.phasepoints):
+                try:
+                    with open(pp.config[0]) as fh:
+                        x = float(fh.read().split()[pp.config[1]])
+                except Exception as exc:
+                    sim.violate("C09", "frame_unreadable", f"{tag}: frame {k} {pp.config}: {exc}")
+                if x != ops[k]:
+                    sim.violate("C09", "order_not_from_frame", f"{tag}: frame {k} stored {ops[k]}, file {x}")
+        gen = new.generated
+        if gen and gen[0] == "sh" and not two:
+            sp_order, idx_old, idx_new = float(gen[1]), int(gen[2]), int(gen[3])
+            old_ops = [o[0] for o in pre["snap"]["orders"]]
+            if not (0 <= idx_new < len(ops)) or ops[idx_new] != sp_order or old_ops[idx_old] != sp_order:
+                sim.violate("C09", "shooting_point_not_contained",
+                            f"{tag}: generated={gen}, new[{idx_new}]={ops[idx_new] if 0 <= idx_new < len(ops) else None}, "
+                            f"old[{idx_old}]={old_ops[idx_old]}")
+
+    # ------------------------------------------------------------------ reference model
+    def _walk(self, eg, x, left, right, cap):
+        """Unconstrained lattice walk from x until it leaves (left, right); at most cap frames."""
+        out = [x]
+        while left <= out[-1] <= right and len(out) < cap:
+            if eg.random() < 0.5:
+                x += 1
+            elif x > self.wall:
+                x -= 1
+            out.append(x)
+        return out
+
+    def _shoot_model(self, jid, e, pre, out):
+        sim = self.sim
+        rg, eg = pre["rg"], pre["eg"]
+        old_ops = [int(o[0]) for o in pre["snap"]["orders"]]
+        lold = len(old_ops)
+        left, mid, right = pre["interfaces"]
+        idx = int(rg.integers(1, lold - 1))
+        x0 = old_ops[idx]
+        maxlength = pre["tis"]["maxlength"]
+        if pre["old_move"] == "ld" or pre["tis"].get("allowmaxlength", False):
+            maxlen, xi = maxlength, None
+            capbound = True
+        else:
+            xi = rg.random()
+            maxlen = min(int((lold - 2) / xi) + 2, maxlength)
+            capbound = int((lold - 2) / xi) + 2 >= maxlength
+        # When the global maxlength (not the drawn number) is the binding limit the property only
+        # says "does not exceed the limit"; equality there is left undecided by the model.
+        cap = maxlength + 3
+        # the walk first draws for the step *after* writing the start frame; stop test precedes draws
+        back = self._walk(eg, x0, left, right, cap)
+        if len(back) >= cap or not (back[-1] < left or back[-1] > right):
+            return          # not decided within the global cap: ambiguous zone, no prediction
+        gen = out["generated"][0]
+        status = out["status"]
+        n_old = lold - 2
+        self.n_model += 1
+        if int(gen[2]) != idx:
+            sim.violate("C09", "model_shooting_index", f"job {jid}: move used index {gen[2]}, the "
+                        f"job's move stream gives {idx}")
+        sc = set(pre["start_cond"])
+        back_end = "L" if back[-1] <= left else "R"
+        if capbound and len(back) >= maxlength - 1:
+            return
+        # backward too long for any forward step?
+        if len(back) > maxlen - 1:
+            self._expect(jid, e, status, False, f"backward walk of {len(back)} frames > maxlen-1={maxlen-1}",
+                         xi, n_old, None)
+            return
+        if back_end not in sc:
+            self._expect(jid, e, status, False, f"backward walk ends {back_end}, allowed {sorted(sc)}",
+                         xi, n_old, None)
+            return
+        forw = self._walk(eg, x0, left, right, cap)
+        if len(forw) >= cap or not (forw[-1] < left or forw[-1] > right):
+            return
+        trial = back[::-1] + forw[1:]
+        n_new = len(trial) - 2
+        if capbound and len(trial) >= maxlength:
+            return
+        if len(trial) == maxlen:
+            sim.k.probe("trial_len_eq_maxlen")
+        if len(trial) > maxlen:
+            self._expect(jid, e, status, False, f"trial of {len(trial)} frames > maxlen {maxlen}", xi,
+                         n_old, n_new)
+            return
+        if sc != {"L", "R"} and not (min(trial) < mid <= max(trial)):
+            self._expect(jid, e, status, False, "trial does not cross the middle interface", xi, n_old, n_new)
+            return
+        if "L" not in sc and (trial[0] <= left or trial[-1] <= left) and left > float("-inf"):
+            self._expect(jid, e, status, False, "0-L", xi, n_old, n_new)
+            return
+        self._expect(jid, e, status, True, "valid trial within the length bound", xi, n_old, n_new)
+        if status == "ACC":
+            got = [int(pp.order[0]) for pp in out["picked"][e]["traj"].phasepoints]
+            if got != trial:
+                sim.violate("C09", "model_path_differs", f"job {jid} ens {e}: accepted path {got} but the "
+                            f"job's streams give {trial}")
+
+    def _expect(self, jid, e, status, accept, why, xi, n_old, n_new):
+        if (status == "ACC") != accept:
+            thr = None if not n_new else n_old / n_new
+            self.sim.violate(
+                "C09", "acceptance_rule",
+                f"job {jid} ens {e}: status {status} but the reference model says "
+                f"{'accept' if accept else 'reject'} ({why}); xi={xi}, n_old={n_old}, n_new={n_new}, "
+                f"n_old/n_new={thr}",
+                site="trial_fills_length_bound" if (accept and status in ("FTL", "FTX", "BTL", "BTX"))
+                else None)
+
+    def summary(self):
+        return {"model_predictions": self.n_model, "accepted_checked": self.n_acc}
+
+
+# ======================================================================================
+class C14Monitor(Monitor):
+    """Stored paths read back unchanged; live paths never lose files; deletion lag."""
+
+    def __init__(self):
+        self.known_live = set()
+        self.initial_hash = {}
+        self.replaced = {}       # pn -> counter value (non-initial replacements) when replaced
+        self.nrep = 0            # stored replacements of non-initial paths so far (this incarnation)
+        self.loaded = 0
+        self.deleted_seen = 0
+        self.checked_files = 0
+
+    def _load_dir(self):
+        st = self.sim.state
+        return os.path.join(os.getcwd(), st.config["simulation"]["load_dir"])
+
+    def _tree_hash(self, pdir):
+        h = hashlib.sha256()
+        for root, dirs, files in sorted(os.walk(pdir)):
+            dirs.sort()
+            for f in sorted(files):
+                h.update(f.encode())
+                h.update((_file_hash(os.path.join(root, f)) or "MISSING").encode())
+        return h.hexdigest()[:16]
+
+    def on_attach(self, state, md_items):
+        self.E = state.n - 1
+        self.known_live = set(int(p) for p in state.live_paths())
+        ld = self._load_dir()
+        for i in range(self.E):
+            pdir = os.path.join(ld, str(i))
+            if os.path.isdir(pdir):
+                self.initial_hash[i] = self._tree_hash(pdir)
+        self.delete_old = bool(state.config["output"].get("delete_old", False))
+        self.delete_all = bool(state.config["output"].get("delete_old_all", False))
+
+    def _files_of(self, traj):
+        return sorted(set(pp.config[0] for pp in traj.phasepoints))
+
+    def _require_files(self, pn, traj, why):
+        sim = self.sim
+        pdir = os.path.join(self._load_dir(), str(pn))
+        for name in ("traj.txt", "order.txt"):
+            if not os.path.isfile(os.path.join(pdir, name)):
+                sim.violate("C14", "live_path_lost_file", f"{why}: path {pn} lacks {name}")
+        for f in self._files_of(traj):
+            self.checked_files += 1
+            if not os.path.isfile(f):
+                sim.violate("C14", "live_path_lost_file", f"{why}: path {pn} lacks {f}")
+            if os.path.realpath(os.path.dirname(f)) != os.path.realpath(os.path.join(pdir, "accepted")):
+                sim.violate("C14", "file_outside_own_dir", f"{why}: path {pn} references {f}")
+
+    def post_treat(self, md):
+        from infretis.classes.path import load_path
+        sim, st = self.sim, self.sim.state
+        ld = self._load_dir()
+        live = [int(p) for p in st.live_paths()]
+        # ---- paths just stored: round trip
+        new = [p for p in live if p not in self.known_live]
+        for pn in new:
+            traj = st._trajs[live.index(pn)]
+            pdir = os.path.join(ld, str(pn))
+            try:
+                back = load_path(pdir)
+            except BaseException as exc:
+                sim.violate("C14", "stored_path_does_not_load", f"path {pn}: {type(exc).__name__}: {exc}")
+                continue
+            self.loaded += 1
+            if back.length != traj.length:
+                sim.violate("C14", "roundtrip_length", f"path {pn}: stored {traj.length}, loaded {back.length}")
+                continue
+            for k, (a, b) in enumerate(zip(traj.phasepoints, back.phasepoints)):
+                ra = (os.path.basename(a.config[0]), int(a.config[1] or 0), bool(a.vel_rev))
+                rb = (os.path.basename(b.config[0]), int(b.config[1]), bool(b.vel_rev))
+                if ra != rb:
+                    sim.violate("C14", "roundtrip_frame_ref", f"path {pn} frame {k}: stored {ra}, loaded {rb}")
+                if os.path.realpath(a.config[0]) != os.path.realpath(b.config[0]):
+                    sim.violate("C14", "roundtrip_frame_file", f"path {pn} frame {k}: {a.config[0]} vs {b.config[0]}")
+                oa = [round(float(x), 6) for x in a.order]
+                ob = [round(float(x), 6) for x in b.order]
+                if len(oa) != len(ob) or any(abs(x - y) > 1.1e-6 for x, y in zip(oa, ob)):
+                    sim.violate("C14", "roundtrip_order", f"path {pn} frame {k}: stored {oa}, loaded {ob}")
+                for key in ("vpot", "ekin"):
+                    va, vb = getattr(a, key, None), getattr(b, key, None)
+                    if va is not None and (vb is None or abs(float(va) - float(vb)) > 1e-6 * max(1, abs(float(va)))):
+                        sim.violate("C14", "roundtrip_energy", f"path {pn} frame {k} {key}: {va} vs {vb}")
+        # ---- replaced paths
+        if md.get("status") == "ACC":
+            for pn_old in md["pnum_old"]:
+                pn_old = int(pn_old)
+                if pn_old >= self.E:
+                    self.nrep += 1
+                    self.replaced[pn_old] = self.nrep
+                else:
+                    self.replaced[pn_old] = None      # initial path: never deleted
+        self.known_live.update(live)
+        # ---- every live / in-flight / restart-listed path has its files
+        for pn in live:
+            self._require_files(pn, st._trajs[live.index(pn)], "after treat_output")
+        import tomli
+        try:
+            with open("restart.toml", "rb") as fh:
+                active = [int(a) for a in tomli.load(fh)["current"]["active"]]
+        except Exception as exc:
+            active = []
+            sim.violate("C14", "restart_unreadable", f"{type(exc).__name__}: {exc}")
+        for pn in active:
+            if pn not in live:
+                sim.violate("C14", "restart_lists_dead_path", f"restart.toml active {active}, live {live}")
+        # ---- initial paths untouched
+        for i, h in self.initial_hash.items():
+            if self._tree_hash(os.path.join(ld, str(i))) != h:
+                sim.violate("C14", "initial_path_touched", f"files of initial path {i} changed or vanished")
+        # ---- deletion discipline for replaced paths
+        for pn, when in list(self.replaced.items()):
+            pdir = os.path.join(ld, str(pn))
+            acc = os.path.join(pdir, "accepted")
+            files_left = os.path.isdir(acc) and len(os.listdir(acc)) > 0
+            gone = not files_left
+            if not gone:
+                continue
+            self.deleted_seen += 1
+            sim.k.probe("old_path_files_deleted")
+            if when is None:
+                sim.violate("C14", "initial_path_deleted", f"initial path {pn} lost its files")
+            elif not self.delete_old:
+                sim.violate("C14", "deleted_without_delete_old", f"path {pn} deleted, delete_old is off")
+            elif self.nrep - when < self.E:
+                sim.violate("C14", "deleted_before_lag",
+                            f"path {pn} deleted after {self.nrep - when} further replacements, lag is {self.E}")
+            if self.delete_all and os.path.isdir(pdir) and self.delete_old and when is not None:
+                sim.violate("C14", "delete_old_all_left_dir", f"path {pn}: directory still there")
+            if not self.delete_all and not os.path.isfile(os.path.join(pdir, "order.txt")):
+                sim.violate("C14", "txt_deleted_without_delete_old_all", f"path {pn}: order.txt gone")
+            self.replaced.pop(pn)
+
+    def on_submit(self, jid, md, info):
+        for e, pe in md["picked"].items():
+            self._require_files(int(pe["traj"].path_number), pe["traj"], f"issue of job {jid}")
+
+    def on_complete(self, fut, info):
+        # files of paths still in flight must have survived everything main did meanwhile
+        st = self.sim.state
+        live = [int(p) for p in st.live_paths()]
+        for j in self.sim.inflight.values():
+            for pn in j["paths"]:
+                if pn in live:
+                    self._require_files(pn, st._trajs[live.index(pn)], "in flight")
+
+    def summary(self):
+        return {"loaded": self.loaded, "deleted_seen": self.deleted_seen, "files_checked": self.checked_files}
+
+
+# ======================================================================================
+def _perm_ryser(a):
+    """Exact permanent of a square matrix of Fractions (Ryser with Gray code is overkill here)."""
+    from fractions import Fraction
+    n = len(a)
+    if n == 0:
+        return Fraction(1)
+    total = Fraction(0)
+    for mask in range(1, 1 << n):
+        prod = Fraction(1)
+        for i in range(n):
+            s = Fraction(0)
+            row = a[i]
+            m, j = mask, 0
+            while m:
+                if m & 1:
+                    s += row[j]
+                m >>= 1
+                j += 1
+            prod *= s
+            if prod == 0:
+                break
+        bits = bin(mask).count("1")
+        total += prod if (n - bits) % 2 == 0 else -prod
+    return total
+
+
+class C02Monitor(Monitor):
+    """Every P matrix the scheduler computes == exact permanent ratios on the idle block."""
+
+    RTOL = 1e-8
+
+    def __init__(self, maxn=9):
+        self.maxn = maxn
+        self.seen = set()
+        self.checked = 0
+        self.paths = {"fast": 0, "blocks": 0}
+        self.cache = {}
+        self.busy = False
+
+    def on_prob(self, mat, locks, out):
+        from fractions import Fraction
+        if self.busy:
+            return
+        sim, st = self.sim, self.sim.state
+        mat = np.asarray(mat, dtype=float)
+        locks = np.asarray(locks)
+        idle = [i for i in range(len(locks)) if locks[i] == 0]
+        key = (mat.tobytes(), locks.tobytes())
+        if key in self.cache:
+            return
+        self.cache[key] = True
+        pattern = (tuple(map(tuple, (mat != 0).astype(int))), tuple(int(x) for x in locks),
+                   bool(np.any((mat != 0) & (mat != 1))))
+        self.seen.add(hash(pattern))
+        out = np.asarray(out, dtype=float)
+        n = len(locks)
+        for i in range(n):
+            for j in range(n):
+                if (locks[i] == 1 or locks[j] == 1) and out[i, j] != 0:
+                    sim.violate("C02", "nonzero_on_busy", f"P[{i},{j}]={out[i,j]} with locks {locks}")
+                if mat[i, j] == 0 and out[i, j] != 0:
+                    sim.violate("C02", "nonzero_where_weight_zero", f"P[{i},{j}]={out[i,j]}, W=0")
+        if not idle or len(idle) > self.maxn:
+            return
+        w = [[Fraction(float(mat[i, j])) for j in idle] for i in idle]
+        m = len(idle)
+        perm = _perm_ryser(w)
+        if perm == 0:
+            sim.violate("C02", "no_perfect_matching", f"perm(W_idle)=0 for W=\n{mat}\nlocks {locks}")
+            return
+        self.checked += 1
+        exact = np.zeros((m, m))
+        for a in range(m):
+            for b in range(m):
+                if w[a][b] == 0:
+                    continue
+                minor = [[w[r][c] for c in range(m) if c != b] for r in range(m) if r != a]
+                exact[a, b] = float(w[a][b] * _perm_ryser(minor) / perm)
+        got = out[np.ix_(idle, idle)]
+        if not np.allclose(got, exact, rtol=self.RTOL, atol=1e-12):
+            a, b = np.unravel_index(np.argmax(np.abs(got - exact)), got.shape)
+            sim.violate("C02", "prob_not_permanent_ratio",
+                        f"P[{idle[a]},{idle[b]}]={got[a,b]!r}, exact {exact[a,b]!r}; W_idle=\n"
+                        f"{mat[np.ix_(idle, idle)]}\nlocks {locks}")
+        if not (np.allclose(got.sum(axis=0), 1, atol=1e-9) and np.allclose(got.sum(axis=1), 1, atol=1e-9)):
+            sim.violate("C02", "not_doubly_stochastic", f"row sums {got.sum(axis=1)}, col sums {got.sum(axis=0)}")
+        weighted = bool(np.any((mat != 0) & (mat != 1)))
+        self.paths["blocks" if weighted else "fast"] += 1
+        if weighted:
+            sim.k.probe("wf_unequal_weight_matrix")
+        # ---- rescaling one path's weights leaves P unchanged; permanent code path agrees
+        self.busy = True
+        try:
+            r = idle[self.checked % m]
+            scaled = mat.copy()
+            scaled[r, :] *= 3.5
+            out2 = np.asarray(st.inf_retis(scaled, locks), dtype=float)
+            if not np.allclose(out2, out, rtol=1e-7, atol=1e-10):
+                sim.violate("C02", "not_scale_invariant", f"row {r} scaled by 3.5 changes P:\n{out}\nvs\n{out2}")
+            if 2 <= m <= 7:
+                pp = np.asarray(st.permanent_prob(mat[np.ix_(idle, idle)].astype("longdouble")), dtype=float)
+                if not np.allclose(pp, exact, rtol=1e-7, atol=1e-10):
+                    sim.violate("C02", "permanent_path_disagrees", f"permanent_prob gives\n{pp}\nexact\n{exact}")
+        finally:
+            self.busy = False
+
+    def summary(self):
+        return {"checked": self.checked, "distinct_states": len(self.seen), "paths": self.paths,
+                "states": sorted(self.seen)[:2000]}
